@@ -25,6 +25,13 @@ inductive Role where
   | nonlocalDecl  -- the name in `nonlocal x`
   | param
   | defName       -- the name of a `def` / `class` statement (sits in the enclosing scope)
+  /-- the default value `n` of a lambda parameter (`lambda p=n: ..`).  `scope` is the LAMBDA's
+  scope and `stmt` its first occurrence: jedi creates the lambda's own context for a name in the
+  lambda header (`create_context` special-cases only `def`/`class` headers) and limits the lookup
+  to the lambda's start, so nothing of the lambda itself is found and the search goes on in the
+  parent context WITHOUT a position limit and skipping classes; Python evaluates the default in
+  the enclosing scope when the lambda is created. -/
+  | dfltUse
 deriving DecidableEq, Repr
 
 structure Scope where
@@ -184,6 +191,7 @@ def varOf (p : Prog) (i : Nat) : Nat :=
   | some o =>
     match o.role with
     | .use => ownerOfUse p o.scope o.name o.stmt
+    | .dfltUse => ownerOfUse p (p.parent o.scope) o.name o.stmt
     | .globalDecl => 0
     | .nonlocalDecl => resolveFree p o.name p.scopes.length (p.parent o.scope)
     | _ => ownerOfBinding p o.scope o.name
